@@ -64,17 +64,25 @@ CONSTANTS NI,         \* number of interfaces
           MaxFalse,   \* at most this many false tests per configuration (0..2)
           NestSet,    \* subset of BOOLEAN: values of nest explored
           ViaAll,     \* TRUE: also call through every interface type that exposes f
-          DRSet,      \* set of <<d, r>> pairs explored
-          ESet,       \* values of e explored in nested configurations
-          Seed, SampleMod, SampleKeep   \* a row is emitted iff Hash % SampleMod < SampleKeep
+          DRSeq,      \* sequence of <<d, r>> pairs explored
+          ESeq,       \* sequence of values of e explored in nested configurations
+          FullUnrelated, \* FALSE: an interface C does not conform to either does not declare f or
+                      \*        declares it with both condition blocks and no body (instead of all 9 shapes)
+          PickByHash, \* TRUE: d/r, e and via are not enumerated but drawn per configuration
+                      \*       from their domains by a hash of (Seed, configuration)
+          Seed, SampleMod, Keep0, Keep1, Keep2
+                      \* a configuration with n false tests is explored iff
+                      \* Hash(Seed, configuration) % SampleMod < Keep_n  (Keep_n = SampleMod: all)
 
-VARIABLES par, conf, ik, ck, dr, nest, e, via, fs
-vars == <<par, conf, ik, ck, dr, nest, e, via, fs>>
+\* ph = 0: only the shape (hierarchy and declarations) is chosen; ph = 1: a full configuration;
+\* ph = 2: a shape in the unfiltered enumeration used to validate WellFormed against the checker
+VARIABLES ph, par, conf, ik, ck, dr, nest, e, via, fs
+vars == <<ph, par, conf, ik, ck, dr, nest, e, via, fs>>
 
 C == NI + 1
 Ifaces == 1..NI
 Sites == 1..C
-Name(s) == IF s = C THEN "C" ELSE "I" \o ToString(s)
+Name(s) == IF s = C THEN "C" ELSE IF s = 1 THEN "I1" ELSE IF s = 2 THEN "I2" ELSE "I" \o ToString(s)
 
 ----------------------------------------------------------------------------
 (* enumeration domains *)
@@ -133,7 +141,7 @@ Bare(i) == ik[i].decl /\ ~ik[i].pre /\ ~ik[i].post /\ ~ik[i].body
 
 W1 == \A i \in Ifaces : Cardinality({j \in Anc(i) \cup {i} : HasDefault(j)}) <= 1
 W2 == \A i \in Ifaces : Bare(i) => \A j \in Anc(i) : ~HasDefault(j)
-W3 == ck.decl \/ Cardinality({j \in Closure : HasDefault(j)}) = 1
+W3 == IF ck.decl THEN TRUE ELSE Cardinality({j \in Closure : HasDefault(j)}) = 1
 WellFormed == W1 /\ W2 /\ W3
 
 \* interfaces through whose type f can be called on a C value
@@ -145,11 +153,13 @@ Exposes(i) == i \in Closure /\ \E j \in Anc(i) \cup {i} : ik[j].decl
 FTests(s) == (IF K(s).pre THEN {<<s, "pre">>} ELSE {})
              \cup (IF K(s).post THEN {<<s, "post">>, <<s, "before">>, <<s, "result">>} ELSE {})
 \* g has condition blocks only in interfaces
-GTests(s) == IF nest /\ s # C
+GTestsN(s, nv) == IF nv /\ s # C
              THEN (IF K(s).pre THEN {<<s, "gpre">>} ELSE {})
                   \cup (IF K(s).post THEN {<<s, "gpost">>, <<s, "gbefore">>} ELSE {})
              ELSE {}
-DeclaredTests == UNION {FTests(s) \cup GTests(s) : s \in Sites}
+GTests(s) == GTestsN(s, nest)
+DeclaredTestsN(nv) == UNION {FTests(s) \cup GTestsN(s, nv) : s \in Sites}
+DeclaredTests == DeclaredTestsN(nest)
 
 SubsetsUpTo(S, k) == {{}} \cup (IF k >= 1 THEN {{a} : a \in S} ELSE {})
                           \cup (IF k >= 2 THEN {{a, b} : a \in S, b \in S} ELSE {})
@@ -189,47 +199,53 @@ AllNestedHold(F) == \A s \in Enforced : \A t \in GTests(s) : Holds(t, F)
 AllHold(F) == AllPreHold(F) /\ AllNestedHold(F) /\ AllPostHold(F)
 
 ----------------------------------------------------------------------------
-(* evaluation-order semantics: the sequence of observable atoms *)
+(* evaluation-order semantics: the sequence of observable atoms.            *)
+(* Observables are written as pairs to keep TLC away from string building:  *)
+(*   event  <<s, "pre.a">>   stands for  emit Ev(s: "<Name(s)>.pre.a")       *)
+(*   message <<"pre", s>>    stands for the condition message "pre:<Name(s)>"*)
+(*   log    <<"body", s>>    stands for  log("body:<Name(s)>"), likewise     *)
+(*          <<"gbody", s>>;  <<"gret", 7>> = "gret:7";  <<"n", 6>> = "n:6"   *)
 
-Emit(v) == [t |-> "emit", v |-> v, k |-> "", h |-> TRUE]
-Log(v) == [t |-> "log", v |-> v, k |-> "", h |-> TRUE]
-Test(t, k, F) == [t |-> "test", v |-> t[2] \o ":" \o Name(t[1]), k |-> k, h |-> Holds(t, F)]
+Emit(s, tag) == [t |-> "emit", v |-> <<s, tag>>, k |-> "", h |-> TRUE]
+Log(tag, x) == [t |-> "log", v |-> <<tag, x>>, k |-> "", h |-> TRUE]
+Test(t, k, F) == [t |-> "test", v |-> <<t[2], t[1]>>, k |-> k, h |-> Holds(t, F)]
 
-PreBlock(s, g, F) ==
-  IF (IF g = "g" THEN GTests(s) ELSE FTests(s)) \cap {<<s, g \o "pre">>} = {} THEN <<>>
-  ELSE << Emit(Name(s) \o "." \o g \o "pre.a"), Test(<<s, g \o "pre">>, "pre", F), Emit(Name(s) \o "." \o g \o "pre.b") >>
+PreBlock(s, isG, F) ==
+  IF isG
+  THEN IF <<s, "gpre">> \notin GTests(s) THEN <<>>
+       ELSE << Emit(s, "gpre.a"), Test(<<s, "gpre">>, "pre", F), Emit(s, "gpre.b") >>
+  ELSE IF ~K(s).pre THEN <<>>
+       ELSE << Emit(s, "pre.a"), Test(<<s, "pre">>, "pre", F), Emit(s, "pre.b") >>
 
-PostBlock(s, g, F) ==
-  IF g = "" THEN
-    IF ~K(s).post THEN <<>>
-    ELSE << Emit(Name(s) \o ".post.a"), Test(<<s, "post">>, "post", F), Test(<<s, "before">>, "post", F),
-            Test(<<s, "result">>, "post", F), Emit(Name(s) \o ".post.b") >>
-  ELSE
-    IF <<s, "gpost">> \notin GTests(s) THEN <<>>
-    ELSE << Emit(Name(s) \o ".gpost.a"), Test(<<s, "gpost">>, "post", F), Test(<<s, "gbefore">>, "post", F),
-            Emit(Name(s) \o ".gpost.b") >>
+PostBlock(s, isG, F) ==
+  IF isG
+  THEN IF <<s, "gpost">> \notin GTests(s) THEN <<>>
+       ELSE << Emit(s, "gpost.a"), Test(<<s, "gpost">>, "post", F), Test(<<s, "gbefore">>, "post", F),
+               Emit(s, "gpost.b") >>
+  ELSE IF ~K(s).post THEN <<>>
+       ELSE << Emit(s, "post.a"), Test(<<s, "post">>, "post", F), Test(<<s, "before">>, "post", F),
+               Test(<<s, "result">>, "post", F), Emit(s, "post.b") >>
 
 RECURSIVE Pres(_, _, _)
-Pres(sites, g, F) == IF sites = <<>> THEN <<>> ELSE PreBlock(Head(sites), g, F) \o Pres(Tail(sites), g, F)
+Pres(sites, isG, F) == IF sites = <<>> THEN <<>> ELSE PreBlock(Head(sites), isG, F) \o Pres(Tail(sites), isG, F)
 RECURSIVE Posts(_, _, _)
-Posts(sites, g, F) == IF sites = <<>> THEN <<>> ELSE PostBlock(Head(sites), g, F) \o Posts(Tail(sites), g, F)
+Posts(sites, isG, F) == IF sites = <<>> THEN <<>> ELSE PostBlock(Head(sites), isG, F) \o Posts(Tail(sites), isG, F)
 
-PreOrder == Lin \o <<C>>            \* interfaces in depth-first pre-order, then own
-PostOrder == <<C>> \o Rev(Lin)      \* own, then interfaces in reversed depth-first pre-order
+PreOrderOf(lin) == lin \o <<C>>        \* interfaces in depth-first pre-order, then own
+PostOrderOf(lin) == <<C>> \o Rev(lin)  \* own, then interfaces in reversed depth-first pre-order
 
-NestedCall(F) ==
-  IF nest /\ Impl = C
-  THEN Pres(PreOrder, "g", F) \o <<Log("gbody:C")>> \o Posts(PostOrder, "g", F) \o <<Log("gret:7")>>
-  ELSE <<>>
+Atoms(F) ==
+  LET lin == Lin
+      pre == PreOrderOf(lin)
+      post == PostOrderOf(lin)
+      nested == IF nest /\ Impl = C
+                THEN Pres(pre, TRUE, F) \o <<Log("gbody", C)>> \o Posts(post, TRUE, F) \o <<Log("gret", 7)>>
+                ELSE <<>>
+  IN Pres(pre, FALSE, F) \o <<Log("body", Impl)>> \o nested \o Posts(post, FALSE, F) \o <<Log("n", 5 + Delta)>>
 
-Atoms(F) == Pres(PreOrder, "", F)
-            \o <<Log("body:" \o Name(Impl))>> \o NestedCall(F)
-            \o Posts(PostOrder, "", F)
-            \o <<Log("n:" \o ToString(5 + Delta))>>
-
-FirstFail(a) == IF \E i \in 1..Len(a) : ~a[i].h
-                THEN CHOOSE i \in 1..Len(a) : ~a[i].h /\ \A j \in 1..(i - 1) : a[j].h
-                ELSE 0
+RECURSIVE FF(_, _)
+FF(a, i) == IF i > Len(a) THEN 0 ELSE IF ~a[i].h THEN i ELSE FF(a, i + 1)
+FirstFail(a) == FF(a, 1)            \* index of the first test that is false, 0 if none
 
 RECURSIVE Pick(_, _)
 Pick(a, ty) == IF a = <<>> THEN <<>>
@@ -241,69 +257,96 @@ Expected(F) ==
       done == IF i = 0 THEN a ELSE SubSeq(a, 1, i - 1)
   IN [ok |-> i = 0,
       kind |-> IF i = 0 THEN "" ELSE a[i].k,
-      msg |-> IF i = 0 THEN "" ELSE a[i].v,
+      msg |-> IF i = 0 THEN <<>> ELSE a[i].v,
       events |-> Pick(done, "emit"),
       logs |-> Pick(done, "log"),
       ret |-> r]
 
-BodyRan(x) == \E i \in 1..Len(x.logs) : x.logs[i] = "body:" \o Name(Impl)
+BodyRan(x) == \E i \in 1..Len(x.logs) : x.logs[i] = <<"body", Impl>>
 
 IsPrefix(p, q) == Len(p) <= Len(q) /\ \A i \in 1..Len(p) : p[i] = q[i]
 
 ----------------------------------------------------------------------------
-(* model sanity, checked by TLC on every configuration *)
+(* model sanity, checked by TLC on every configuration; x = Expected(fs) *)
 
 \* the evaluation-order semantics decides exactly the statement of C10
-JudgementAgrees == Expected(fs).ok <=> AllHold(fs)
-\* only applicable tests matter; false tests of unrelated interfaces do not
-OnlyApplicableMatter == Expected(fs).ok <=> (fs \cap ApplicableTests = {})
-\* the model's bookkeeping of truth values is consistent with the semantics of before/result
+JudgementAgrees(x) == x.ok <=> AllHold(fs)
+\* only applicable tests matter; false tests of interfaces C does not conform to do not
+OnlyApplicableMatter(x) == x.ok <=> (fs \cap ApplicableTests = {})
+\* the bookkeeping of truth values is consistent with the semantics of before / result
 TruthBookkeeping == \A t \in DeclaredTests : Holds(t, fs) <=> t \notin fs
 \* the body runs iff all pre-conditions held; success implies it ran
-BodyIffPre == LET x == Expected(fs) IN (BodyRan(x) <=> AllPreHold(fs)) /\ (x.ok => BodyRan(x))
-\* a failing pre-condition is reported as such and no post-condition event was emitted
-PhaseOrder == LET x == Expected(fs) IN
-                /\ ~AllPreHold(fs) => x.kind = "pre" /\ x.logs = <<>>
-                /\ (AllPreHold(fs) /\ ~x.ok /\ ~nest) => x.kind = "post"
+BodyIffPre(x) == (BodyRan(x) <=> AllPreHold(fs)) /\ (x.ok => BodyRan(x))
+\* a failing pre-condition is reported as such before anything was logged;
+\* without a nested call every other failure is a post-condition failure
+PhaseOrder(x) == /\ ~AllPreHold(fs) => x.kind = "pre" /\ x.logs = <<>>
+                 /\ (AllPreHold(fs) /\ ~x.ok /\ ~nest) => x.kind = "post"
 \* turning a false test true never turns success into failure and only extends what was observed
-Monotone == \A t \in fs :
-              LET x == Expected(fs)
-                  y == Expected(fs \ {t})
-              IN (x.ok => y.ok) /\ IsPrefix(x.events, y.events) /\ IsPrefix(x.logs, y.logs)
-\* on success every applicable block emitted both of its events, every other block none
-EventsComplete ==
-  LET x == Expected(fs)
-      blocks == {<<s, "pre">> : s \in {s \in Enforced : K(s).pre}} \cup {<<s, "post">> : s \in {s \in Enforced : K(s).post}}
+Monotone(x) == \A t \in fs :
+                 LET y == Expected(fs \ {t})
+                 IN (x.ok => y.ok) /\ IsPrefix(x.events, y.events) /\ IsPrefix(x.logs, y.logs)
+\* on success every applicable block emitted both of its events, and nothing else was emitted
+EventsComplete(x) ==
+  LET blocks == {<<s, "pre">> : s \in {s \in Enforced : K(s).pre}} \cup {<<s, "post">> : s \in {s \in Enforced : K(s).post}}
   IN x.ok => Len(x.events) = 2 * Cardinality(blocks)
                 + (IF nest /\ Impl = C THEN 2 * Cardinality({t \in ApplicableTests : t[2] \in {"gpre", "gpost"}}) ELSE 0)
 
-----------------------------------------------------------------------------
-(* the table *)
+Sanity == ph = 1 =>
+  LET x == Expected(fs)
+  IN /\ JudgementAgrees(x) /\ OnlyApplicableMatter(x) /\ TruthBookkeeping /\ BodyIffPre(x)
+     /\ PhaseOrder(x) /\ Monotone(x) /\ EventsComplete(x) /\ fs \subseteq DeclaredTests
 
-SiteRow(s, F) == [decl |-> K(s).decl, pre |-> K(s).pre, post |-> K(s).post, body |-> K(s).body,
-                  pt |-> Flag(<<s, "pre">>, F), qt |-> Flag(<<s, "post">>, F),
-                  D |-> DConst(s, F), R |-> RConst(s, F),
-                  gpt |-> Flag(<<s, "gpre">>, F), gqt |-> Flag(<<s, "gpost">>, F), E |-> EConst(s, F),
-                  rel |-> Rel(s)]
+\* the same, one by one (MC_Conditions_debug.cfg), to locate a violated clause
+Inv1 == ph = 1 => JudgementAgrees(Expected(fs))
+Inv2 == ph = 1 => OnlyApplicableMatter(Expected(fs))
+Inv3 == ph = 1 => TruthBookkeeping
+Inv4 == ph = 1 => BodyIffPre(Expected(fs))
+Inv5 == ph = 1 => PhaseOrder(Expected(fs))
+Inv6 == ph = 1 => Monotone(Expected(fs))
+Inv7 == ph = 1 => EventsComplete(Expected(fs))
+
+----------------------------------------------------------------------------
+(* the table: one row per configuration.  sites[s] =                        *)
+(*   <<8*decl + 4*pre + 2*post + body, pt, qt, D, R, gpt, gqt, E>>          *)
+
+B(b) == IF b THEN 1 ELSE 0
+KCode(k) == 8 * B(k.decl) + 4 * B(k.pre) + 2 * B(k.post) + B(k.body)
+
+SiteRow(s, F) == << KCode(K(s)), B(Flag(<<s, "pre">>, F)), B(Flag(<<s, "post">>, F)), DConst(s, F), RConst(s, F),
+                    B(Flag(<<s, "gpre">>, F)), B(Flag(<<s, "gpost">>, F)), EConst(s, F) >>
 
 RECURSIVE SiteRows(_)
 SiteRows(s) == IF s > C THEN <<>> ELSE <<SiteRow(s, fs)>> \o SiteRows(s + 1)
+RECURSIVE Rels(_)
+Rels(s) == IF s > C THEN <<>> ELSE <<Rel(s)>> \o Rels(s + 1)
 RECURSIVE ParRows(_)
 ParRows(i) == IF i > NI THEN <<>> ELSE <<par[i]>> \o ParRows(i + 1)
+RECURSIVE KRows(_)
+KRows(s) == IF s > C THEN <<>> ELSE <<KCode(K(s))>> \o KRows(s + 1)
 
-Row ==  [ni |-> NI, par |-> ParRows(1), conf |-> conf, sites |-> SiteRows(1),
-           d |-> d, r |-> r, nest |-> nest, e |-> EE, via |-> via,
-           lin |-> Lin, impl |-> Name(Impl), nfalse |-> Cardinality(fs),
-           napp |-> Cardinality(fs \cap ApplicableTests),
-           ninh |-> Cardinality({s \in Closure : K(s).pre \/ K(s).post}),
-           exp |-> Expected(fs)]
+\* Sanity and EmitRow in one pass (Expected evaluated once per configuration)
+RowOf(x) == [ni |-> NI, par |-> ParRows(1), conf |-> conf, sites |-> SiteRows(1),
+             d |-> d, r |-> r, nest |-> nest, e |-> EE, via |-> via,
+             rel |-> Rels(1), lin |-> Lin, impl |-> Impl,
+             napp |-> Cardinality(fs \cap ApplicableTests), nfalse |-> Cardinality(fs),
+             ninh |-> Cardinality({s \in Closure : K(s).pre \/ K(s).post}),
+             exp |-> x]
+SaneAndEmit == ph = 1 =>
+  LET x == Expected(fs)
+  IN /\ JudgementAgrees(x) /\ OnlyApplicableMatter(x) /\ TruthBookkeeping /\ BodyIffPre(x)
+     /\ PhaseOrder(x) /\ Monotone(x) /\ EventsComplete(x) /\ fs \subseteq DeclaredTests
+     /\ PrintT(ToJson(RowOf(x)))
+EmitRow == ph = 1 => PrintT(ToJson(RowOf(Expected(fs))))
 
-\* deterministic sampling: a hash of the configuration and the seed
+ShapeRow == [ni |-> NI, par |-> ParRows(1), conf |-> conf, k |-> KRows(1), wf |-> WellFormed]
+EmitShape == ph = 2 => PrintT(ToJson(ShapeRow))
+
+----------------------------------------------------------------------------
+(* deterministic sampling: a hash of the configuration and the seed *)
+
 Mix(h, x) == (h * 31 + x + 7) % 1000003
 RECURSIVE MixSeq(_, _)
 MixSeq(h, sq) == IF sq = <<>> THEN Mix(h, 29) ELSE MixSeq(Mix(h, Head(sq)), Tail(sq))
-B(b) == IF b THEN 1 ELSE 0
-KCode(k) == 8 * B(k.decl) + 4 * B(k.pre) + 2 * B(k.post) + B(k.body)
 TCode(t) == LET n == CASE t[2] = "pre" -> 1 [] t[2] = "post" -> 2 [] t[2] = "before" -> 3 [] t[2] = "result" -> 4
                        [] t[2] = "gpre" -> 5 [] t[2] = "gpost" -> 6 [] OTHER -> 7
             IN (t[1] * 8 + n) * (t[1] * 8 + n + 11)
@@ -311,25 +354,50 @@ RECURSIVE SumSet(_)
 SumSet(S) == IF S = {} THEN 0 ELSE LET x == CHOOSE x \in S : TRUE IN TCode(x) + SumSet(S \ {x})
 RECURSIVE MixPar(_, _)
 MixPar(h, i) == IF i > NI THEN h ELSE MixPar(Mix(MixSeq(h, par[i]), KCode(ik[i])), i + 1)
-Hash == Mix(Mix(Mix(Mix(Mix(Mix(Mix(MixPar(MixSeq(Mix(Seed, 17), conf), 1), KCode(ck)), d), r), B(nest)), e), via), SumSet(fs))
-Keep == SampleKeep >= SampleMod \/ (Hash % SampleMod) < SampleKeep
+ShapeHash == Mix(MixPar(MixSeq(Mix(Seed, 17), conf), 1), KCode(ck))
+CfgHash(nv, F) == Mix(Mix(Mix(ShapeHash, B(nv)), SumSet(F)), 3)
 
-EmitRow == Keep => PrintT(ToJson(Row))
+RECURSIVE ViaSeqFrom(_)
+ViaSeqFrom(i) == IF i > NI THEN <<>> ELSE (IF Exposes(i) THEN <<i>> ELSE <<>>) \o ViaSeqFrom(i + 1)
+ViaSeq == <<0>> \o (IF ViaAll THEN ViaSeqFrom(1) ELSE <<>>)
+
+Choices(sq, h) == IF PickByHash THEN {sq[(h % Len(sq)) + 1]} ELSE Range(sq)
 
 ----------------------------------------------------------------------------
-Init ==
+ShapeDomains ==
   /\ par \in {p \in [Ifaces -> DFSeqs(Ifaces)] : \A i \in Ifaces : \A j \in Range(p[i]) : j < i}
   /\ conf \in DFSeqs(Ifaces)
   /\ ik \in [Ifaces -> IKinds]
+
+Rest0 == dr = <<0, 0>> /\ nest = FALSE /\ e = 0 /\ via = 0 /\ fs = {}
+
+CondBoth == [decl |-> TRUE, pre |-> TRUE, post |-> TRUE, body |-> FALSE]
+UnrelatedOK == IF FullUnrelated THEN TRUE ELSE \A i \in Ifaces \ Closure : ik[i] \in {Absent, CondBoth}
+
+Init ==
+  /\ ph = 0
+  /\ ShapeDomains
+  /\ UnrelatedOK
   /\ W1 /\ W2
   /\ ck \in CKinds
   /\ W3
-  /\ dr \in DRSet
-  /\ nest \in (IF ck.decl THEN NestSet ELSE {FALSE})
-  /\ e \in (IF nest THEN ESet ELSE {0})
-  /\ via \in ({0} \cup (IF ViaAll THEN {i \in Ifaces : Exposes(i)} ELSE {}))
-  /\ fs \in SubsetsUpTo(DeclaredTests, MaxFalse)
+  /\ Rest0
 
-Next == UNCHANGED vars
+Next ==
+  /\ ph = 0 /\ ph' = 1
+  /\ UNCHANGED <<par, conf, ik, ck>>
+  /\ \E nv \in (IF ck.decl THEN NestSet ELSE {FALSE}) :
+       \E F \in SubsetsUpTo(DeclaredTestsN(nv), MaxFalse) :
+         LET h == CfgHash(nv, F) IN
+         /\ (h % SampleMod) < (CASE Cardinality(F) = 0 -> Keep0 [] Cardinality(F) = 1 -> Keep1 [] OTHER -> Keep2)
+         /\ nest' = nv /\ fs' = F
+         /\ dr' \in Choices(DRSeq, h \div 3)
+         /\ e' \in (IF nv THEN Choices(ESeq, h \div 17) ELSE {0})
+         /\ via' \in Choices(ViaSeq, h \div 101)
+
 Spec == Init /\ [][Next]_vars
+
+\* unfiltered shapes, to compare WellFormed with the checker's verdict
+InitShapes == ph = 2 /\ ShapeDomains /\ ck \in CKinds /\ Rest0
+SpecShapes == InitShapes /\ [][UNCHANGED vars]_vars
 =============================================================================
